@@ -10,7 +10,7 @@ import itertools
 
 from hypothesis import strategies as st
 
-from lib.engine import R, V, enum_part, hyp_part
+from lib.engine import R, V, enum_part, hyp_part, concurrent_part
 
 ID = 'C13'
 RULE = ('IPv4: every combination of 13 boundary octets (exhaustive), every value 0..255 in every position, Hypothesis over 2^32 with '
@@ -18,7 +18,8 @@ RULE = ('IPv4: every combination of 13 boundary octets (exhaustive), every value
         '/ upper-case spellings; GUID: 128 bits x {dashed, braced, upper-case, undashed}; near-miss invalid addresses (soundness only); '
         'grammar-generated e-mail / URL (TLD from BaseURL.TldList) / hashtag / mention / phone literals; each alone or in a carrier sentence, and pairs of two different literals of one kind in one query; '
         'separated by blanks; non-trivial = IP with a boundary octet, a compressed run or upper-case hex, any literal inside a carrier '
-        '(start > 0), or a near-miss on which something was reported; distinct = distinct (kind, query)')
+        '(start > 0), or a near-miss on which something was reported; distinct = distinct (kind, query); concurrent part: the same generated cases evaluated 2-4 at a time on simultaneous threads (switch interval 10 us), '
+        'cases that are clean alone must stay clean')
 ASSUMPTIONS = ['carrier sentences are static lists (chosen so that they contain no sequence entity and do not glue to the literal)',
                'phone formats are a static list of national spellings the wired regexes are documented to accept (>= 7 digits)']
 
@@ -353,4 +354,6 @@ def parts(tier, seed):
         hyp_part('hashtag-mention', tag_cases, run_literal, 800 if q else 50000, min_shard=100),
         hyp_part('phone', phone_cases, run_literal, 800 if q else 50000, min_shard=100),
         hyp_part('pairs-in-one-query', pair_cases, run_pair, 1500 if q else 40000, min_shard=150),
+        concurrent_part('concurrent-mixed-kinds', lambda: st.one_of(v4_cases(), v6_cases(), guid_cases(), email_cases(), url_cases(), tag_cases(),
+                                                                    phone_cases()), run_literal, 400 if q else 8000, min_shard=50),
     ]
